@@ -150,4 +150,34 @@ Definition C07_converges_stmt : Prop :=
     sn_sid sn = cur s /\ sn_pat sn = ui_pat s /\ sn_count sn = count_of s (cur s) /\
     (forall i, In i (map m_idx (sn_matches sn)) <-> In i (from_scratch_idx s (ui_pat s) (cur s))).
 
+(* ---- C06 / C07 with the capacity hypothesis ----------------------------------------------------------
+   The protocol model's streams are unbounded lists; the real item vector never hands out an index above
+   MAX_ENTRIES = u32::MAX - 32 (boxcar.rs: index > MAX_ENTRIES panics; constant translated in
+   Gen/GenBoxcar.v, C11), so an item index can never equal the worker's placeholder value u32::MAX.  The
+   two statements above are FALSE for the unbounded model (Proofs/SnapshotFacts.v: C06_snapshot_false,
+   C07_converges_false - after 2^32 reservations the item with index u32::MAX is mistaken for a
+   placeholder); the claimed statements add exactly the capacity hypothesis and nothing else. *)
+Definition within_capacity (s : nstate) : Prop := forall sid, count_of s sid <= PLACEHOLDER.
+
+Definition C06_snapshot_weak_stmt : Prop :=
+  forall s, reachable_truthful s -> within_capacity s ->
+    let sn := snap s in
+    NoDup (map m_idx (sn_matches sn)) /\
+    (forall m, In m (sn_matches sn) ->
+       m_idx m <> PLACEHOLDER /\ published s (sn_sid sn) (m_idx m) = true /\
+       score_of (sn_pat sn) (sn_sid sn) (m_idx m) = Some (m_score m)) /\
+    (exists proc : list N,
+       NoDup proc /\ lenN proc = sn_count sn /\
+       (forall i, In i proc -> published s (sn_sid sn) i = true) /\
+       (forall m, In m (sn_matches sn) -> In (m_idx m) proc) /\
+       (forall i, In i proc -> score_of (sn_pat sn) (sn_sid sn) i <> None -> In i (map m_idx (sn_matches sn)))) /\
+    (if pat_is_empty (sn_pat sn) then StronglySorted (fun a b => m_idx a <= m_idx b) (sn_matches sn)
+     else StronglySorted (key_le (sn_sid sn)) (sn_matches sn)).
+
+Definition C07_converges_weak_stmt : Prop :=
+  forall s, reachable_truthful s -> within_capacity s -> quiescent s ->
+    let sn := snap s in
+    sn_sid sn = cur s /\ sn_pat sn = ui_pat s /\ sn_count sn = count_of s (cur s) /\
+    (forall i, In i (map m_idx (sn_matches sn)) <-> In i (from_scratch_idx s (ui_pat s) (cur s))).
+
 End Protocol.
